@@ -1,7 +1,9 @@
 (* C05 — property theorems only.  Each is closed by [exact]/[apply] of a lemma
    from Proofs_*.v and followed by Print Assumptions. *)
 From Coq Require Import List ZArith Bool Lia.
+From Coq Require Import Permutation.
 From Verif Require Import lib.Wire c05.ModelLimiter c05.SpecLimiter c05.Proofs_Limiter gen.Consts_c05.
+From Verif Require Import c05.ModelWorker c05.SpecWorker c05.Proofs_Worker.
 Import ListNotations.
 Local Open Scope Z_scope.
 
@@ -50,6 +52,44 @@ Theorem c05_default_caps_wf : 1 <= ConcurrentFdDials /\ 1 <= DefaultPerPeerRateL
 Proof. vm_compute. split; discriminate. Qed.
 Print Assumptions c05_default_caps_wf.
 
+(* ---- dial worker loop ------------------------------------------------------------
+   For EVERY finite sequence of loop iterations (request / dial timer / dial update /
+   reqch closed) in any order, with every answer the environment can give inside a
+   handler (existing connection or not, ranking, back-off table, addConn verdict,
+   clock).  wf_run: request ids are fresh, a ranking lists each address once
+   (c05_ranker_is_permutation + ma.Unique), a dial update arrives only for a dial
+   that is in flight and is never ErrDialBackoff itself. *)
+
+(* no request is ever sent two responses *)
+Theorem c05_response_at_most_once : forall evs, wf_run init_w evs ->
+  NoDup (map fst (w_resps (wrun init_w evs))).
+Proof. exact response_at_most_once_l. Qed.
+Print Assumptions c05_response_at_most_once.
+
+(* hence a send on a request's resch (capacity 1) never blocks the worker *)
+Theorem c05_buffered_send_never_blocks : forall evs, wf_run init_w evs ->
+  forall rid, (count_occ Z.eq_dec (map fst (w_resps (wrun init_w evs))) rid <= 1)%nat.
+Proof. exact resp_count_le_1_l. Qed.
+Print Assumptions c05_buffered_send_never_blocks.
+
+(* whenever nothing is scheduled and no dial is in flight, no request is pending:
+   every request received has been answered.  With the environment hypothesis that
+   the timer fires and every started dial eventually reports, this is "returns
+   exactly once". *)
+Theorem c05_response_at_least_once_at_quiescence : forall evs, wf_run init_w evs ->
+  let s := wrun init_w evs in
+  w_dq s = [] -> w_inflight s = 0 ->
+  w_pending s = [] /\ forall rid, In rid (w_seen s) -> In rid (map fst (w_resps s)).
+Proof. exact exactly_once_at_quiescence_l. Qed.
+Print Assumptions c05_response_at_least_once_at_quiescence.
+
+(* per worker, an address is passed to dialNextAddr -> limiter -> transport at most
+   once (back-off refusals are not dials) *)
+Theorem c05_addr_handed_once : forall evs, wf_run init_w evs ->
+  NoDup (w_dials (wrun init_w evs)).
+Proof. exact addr_handed_once_l. Qed.
+Print Assumptions c05_addr_handed_once.
+
 (* ---- non-vacuity ----------------------------------------------------------------- *)
 (* the history of the repaired defect reaches a state with a queued live job and
    the FD cap exactly saturated *)
@@ -66,4 +106,31 @@ Proof. vm_compute. repeat split. Qed.
 Example monitor_rejects_fd_cap_exceeded :
   monitor_lim_case [1; 1;  1; 1; 1; 1; 1;  1; 0; 0; 1; 1; 1; 0; 1; 1; 1; 1; 1;
                            1; 2; 2; 1; 2;  2; 0; 0; 2; 1; 1; 2; 1; 0; 2; 1; 1; 1; 1; 2; 2; 1; 2] <> [].
+Proof. vm_compute. discriminate. Qed.
+
+(* two callers with different address sets, the shared address fails last: both are
+   answered exactly once (a reachable state that meets the hypotheses) *)
+Example worker_two_callers :
+  let evs := [WReq 1 false false false (Some [(10, 0); (11, 0)]);
+              WTimer [] [];
+              WReq 2 false false false (Some [(11, 0); (12, 250)]);
+              WRes 10 (DRFail EOther) [];
+              WTimer [] [];
+              WRes 12 (DRFail EOther) [];
+              WRes 11 (DRFail EOther) []] in
+  wf_run init_w evs /\
+  let s := wrun init_w evs in
+  w_dq s = [] /\ w_inflight s = 0 /\ w_resps s = [(1, RespErr); (2, RespErr)] /\ w_dials s = [10; 11; 12].
+Proof.
+  vm_compute.
+  repeat split; try discriminate; try tauto;
+    repeat (constructor; [cbn; intuition discriminate|]); try constructor;
+    try (intros [H|[]]; discriminate).
+Qed.
+
+(* the worker monitor rejects a trace in which a request is answered twice *)
+Example worker_monitor_rejects_double_response :
+  monitor_w_case [1; 1; 0; 0; 1; 1; 5; 0;  0; 1; 5; 0; 1; 5; 0; 0; 1; 1; 1; 0;
+                  3; 5; 0; 0;  1; 1; 1; 0; 0; 1; 5; 1; 2; 0; 1;
+                  2; 1;       1; 1; 1; 0; 0; 1; 5; 1; 2; 0; 1] <> [].
 Proof. vm_compute. discriminate. Qed.
